@@ -78,7 +78,7 @@ func runHarness(prog *Program, spec HarnessSpec, tier int, seed int64, workers i
 		// default time budgets per harness; exhausting one is reported as INCONCLUSIVE
 		to.TimeoutS = 240
 		if tier == 1 {
-			to.TimeoutS = 1500
+			to.TimeoutS = 900
 		}
 	}
 	opts := ExploreOpts{Workers: workers, MaxPaths: to.MaxPaths, SolverBin: "z3", SolverTimeout: 10000,
